@@ -5,10 +5,11 @@ oracle (the property statement itself) on what the implementation was observed t
 A case is a JSON-able dict:
   kind      "simple" | "iter"
   config    "plain" | "secret"            (mem:// with the null pickler / with secret= -> HashSigner + pickle)
-  sig       "ab" | "kw"                   (async def f(a, b=0) / async def f(a, *, b=0))
+  sig       "ab" | "kw" | "va" | "vk"     (async def f(a, b=0) / f(a, *, b=0) / f(a, *rest) / f(a, **opts))
   keytpl    None | "{a}:{b}" | ...        (key= of the decorator)     prefix: str (simple only)
   protected bool                          (simple only; calls are sequential, so single-flight must be invisible)
-  cond      condition in driver notation  (all | nn | we:.. | oe:.. | tc:<ticks> | fn:<6 letters>)
+  cond      condition in driver notation  (all | nn | we:.. | oe:.. | tc:<ticks> | fn:<6 letters> | tc:<ticks>&<cond>:
+            time_condition= together with condition=, both have to accept)
   condv     int: which Python spelling of that condition is used
   ttl       TTL in driver notation        (i<secs> | f<ticks> | d<ticks> | s<hex> | ck:.. | cr:..)
   ttlv      int: for callables, 0 = accepts `result=`, 1 = does not (TypeError fallback path of ttl_to_seconds)
@@ -22,6 +23,9 @@ A case is a JSON-able dict:
             arg_index indexes ARGS: bound (a, b) tuples, some of which are EQUAL BUT DIFFERENT arguments (1 / True / 1.0,
             0 / False / 0.0, 2 / 2.0): "the same bound arguments" is the rendered key of C08 (1 -> '1', True -> 'true',
             1.0 -> '1.0'), never python's ==
+            calls of the basic decorator may carry a 4th element "lost": the caller's task is cancelled while the function
+            is running - under thunder protection (protected=True) the call is shielded and completes, without it the
+            execution is cut short as it starts to work (it is then no execution: it consumes no script entry)
             iterator calls may carry a 4th element, what the consumer does with the stream:
               ["take", n, how]  receives n >= 1 elements and stops: how 0 = break + aclose(), 1 = break and drop the
                                 stream (finalised by the event loop), 2 = the consumer's task is cancelled between two
@@ -224,6 +228,37 @@ def _eq_classes():
     return [ids for ids in out.values() if len(ids) > 1]
 
 
+# functions with a variadic parameter: bound (a, rest) of `f(a, *rest)` and (a, sorted items of opts) of `f(a, **opts)`;
+# the overflow is part of the bound arguments like any named parameter
+ARGS_VA = [(1, ()), (1, (20,)), (1, (20, 30)), (1, (40,)), (2, ()), (2, (20,)), (1, (20, 30, 40)), (1, (30, 20)),
+           # 8, 9: not drawn by the generators - the iterator decorator keeps item i of a run under "<key>:<i>", so with the
+           # default key template item 3 of f(1, 2) sits under the very key that marks a cached run of f(1, 2, 3)
+           # (known finding C02:iterator-chunk-key-is-a-marker-key, witness corpus/C02/B2_*)
+           (1, (2,)), (1, (2, 3))]
+VA_COLLIDING = (8, 9)
+ARGS_VK = [(1, ()), (1, (("x", 20),)), (1, (("y", 20),)), (1, (("x", 20), ("y", 30))), (2, ()), (2, (("x", 20),)), (1, (("x", 30),)),
+           (1, (("x", 30), ("y", 20)))]
+
+
+def alphabet(sig: str):
+    return {"ab": ARGS, "kw": ARGS, "va": ARGS_VA, "vk": ARGS_VK}[sig]
+
+
+def bound_index(sig: str, a, b) -> int:
+    """key id of the bound arguments of a call of signature `sig`"""
+    if sig in ("ab", "kw"):
+        return arg_index(a, b)
+    try:
+        return alphabet(sig).index((a, b))
+    except ValueError:
+        raise HarnessError(f"arguments {(a, b)!r} are not in the alphabet of signature {sig}") from None
+
+
+def eq_class_of(sig: str, k: int):
+    """key ids whose arguments compare equal to those of key k (other than by being the same arguments)"""
+    return EQ_CLASS_OF.get(k, ()) if sig in ("ab", "kw") else ()
+
+
 EQ_CLASSES = _eq_classes()       # key ids whose argument tuples compare equal: [[0,4,5,6,7,12], [1,8], [3,13], [9,10,11]]
 EQ_CLASS_OF = {i: ids for ids in EQ_CLASSES for i in ids}
 UNIT_SECS = {"d": 86400, "h": 3600, "m": 60, "s": 1}   # the property's meaning of the units (not read from the code)
@@ -350,9 +385,15 @@ def ttl_ticks_spec(ttl: str, key: int, kind: str):
 
 
 def _result_kind(result) -> str:
-    if isinstance(result, BaseException) or type(result).__name__ == "RaiseException":
+    """what a user's ttl callable makes of the `result` it is handed: an exception (`isinstance(result, Exception)`), None,
+    a falsy value - or an ordinary answer, which is also what any object it does not know (an internal wrapper, say) is"""
+    if isinstance(result, BaseException):
         return "e0"
-    return kind_of(canon(result))
+    k = kind_of(canon(result))
+    return k if k in ("v", "n", "f") else "v"
+
+
+TTL_SEEN: list = []     # (result handed to a result-dependent ttl callable), in call order; cleared by `execute` per call
 
 
 def ttl_py(ttl: str, variant: int, key_of):
@@ -369,6 +410,8 @@ def ttl_py(ttl: str, variant: int, key_of):
 
     if variant == 0 or not by_key:
         def ttl_fn(*args, result=None, **kwargs):
+            if not by_key:
+                TTL_SEEN.append(result)
             return pick(args, kwargs, result)
     else:
         def ttl_fn(*args, **kwargs):          # does not take `result`: ttl_to_seconds falls back to ttl(*args, **kwargs)
@@ -388,6 +431,9 @@ def cond_accepts_spec(cond: str, kind: str, dur: int, *, item: bool = False) -> 
     any truthy value) and exceptions it returns."""
     kind = base_kind(kind)      # the payload of an exception plays no part in its selection
     is_exc = kind.startswith("e")
+    if "&" in cond:             # time_condition= together with condition=: stored only if both accept
+        tc, inner = cond.split("&", 1)
+        return dur > int(tc[3:]) and cond_accepts_spec(inner, kind, dur, item=item)
     if cond == "all":
         return not is_exc
     if cond == "nn":
@@ -411,6 +457,9 @@ def cond_accepts_spec(cond: str, kind: str, dur: int, *, item: bool = False) -> 
 
 def cond_py(cond: str, variant: int):
     """(condition=, time_condition=) arguments for the decorator"""
+    if "&" in cond:
+        tc, inner = cond.split("&", 1)
+        return cond_py(inner, variant)[0], cond_py(tc, variant)[1]
     if cond == "all":
         return [None, "all", any][variant % 3], None
     if cond == "nn":
@@ -454,19 +503,34 @@ def _kind_exact(result) -> str:
 # ----------------------------------------------------------------------------------------------
 # call forms
 def make_sig(sig: str):
+    """a function with the signature that gives back the normalised bound arguments of a call"""
     if sig == "ab":
         def shape(a, b=0):
             return (a, b)
     elif sig == "kw":
         def shape(a, *, b=0):
             return (a, b)
+    elif sig == "va":
+        def shape(a, *rest):
+            return (a, tuple(rest))
+    elif sig == "vk":
+        def shape(a, **opts):
+            return (a, tuple(sorted(opts.items())))
     else:
         raise HarnessError(f"bad signature {sig}")
     return shape
 
 
-def forms(sig: str, a: int, b: int):
-    """every way to spell the call f(a, b) for the signature: list of (args, kwargs)"""
+SIG_TEXT = {"ab": "a, b=0", "kw": "a, *, b=0", "va": "a, *rest", "vk": "a, **opts"}
+
+
+def forms(sig: str, a, b):
+    """every way to spell the call with bound arguments (a, b) for the signature: list of (args, kwargs)"""
+    if sig == "va":         # extra positionals can only follow a positional `a`
+        return [((a, *b), {})] + ([((), {"a": a})] if not b else [])
+    if sig == "vk":
+        opts = dict(b)
+        return [((a,), opts), ((), {"a": a, **opts}), ((), {**opts, "a": a}), ((a,), dict(reversed(list(opts.items()))))]
     out = [((a,), {"b": b}), ((), {"a": a, "b": b}), ((), {"b": b, "a": a})]
     if sig == "ab":
         out.insert(0, ((a, b), {}))
@@ -475,14 +539,16 @@ def forms(sig: str, a: int, b: int):
     return out
 
 
+def call_forms(sig: str, key: int):
+    return forms(sig, *alphabet(sig)[key])
+
+
 def key_of_factory(sig: str):
-    signature = inspect.signature(make_sig(sig))
+    shape = make_sig(sig)
 
     def key_of(args, kwargs) -> int:
         kwargs = {k: v for k, v in kwargs.items() if k != "result"}
-        ba = signature.bind(*args, **kwargs)
-        ba.apply_defaults()
-        return arg_index(ba.arguments["a"], ba.arguments["b"])
+        return bound_index(sig, *shape(*args, **kwargs))
     return key_of
 
 
@@ -560,6 +626,14 @@ def execute(case: dict):
             return [{"line": "setup", "impl": f"raised {type(exc).__name__}: {str(exc)[:80]}", "now": CLOCK.ticks(), "crash": True}]
 
     async def go_inner():
+        loop = asyncio.get_running_loop()
+
+        def quiet(loop, context):
+            # a shielded call whose caller was cancelled may raise its scripted exception to nobody: that is the script
+            if isinstance(context.get("exception"), tuple(EXC)):
+                return
+            loop.default_exception_handler(context)
+        loop.set_exception_handler(quiet)
         cache = setup_cache(case["config"])
         condition, time_condition = cond_py(case["cond"], case.get("condv", 0))
         ttl = ttl_py(case["ttl"], case.get("ttlv", 0), key_of)
@@ -567,8 +641,19 @@ def execute(case: dict):
             async def body(a, b):
                 n = len(log)
                 k, dur = parse_beh(script[n]) if n < len(script) else ("v", 0)
-                entry = {"n": n, "key": arg_index(a, b), "kind": "f" if k.startswith("f") else k, "dur": dur}
+                entry = {"n": n, "key": bound_index(sig, a, b), "kind": "f" if k.startswith("f") else k, "dur": dur}
                 log.append(entry)
+                if ctl["block"]:            # this call's caller is going to be cancelled while the function works
+                    ctl["block"] = False
+                    ctl["reached"].set()
+                    try:
+                        await ctl["gate"].wait()
+                    except asyncio.CancelledError:
+                        # the cancellation reached the function itself (no thunder protection): this execution never
+                        # computed anything - it is not an execution of the script
+                        log.pop()
+                        ctl["cut"] += 1
+                        raise
                 await _pass_time(dur)
                 entry["t"] = CLOCK.ticks()
                 if k == "v":
@@ -588,22 +673,30 @@ def execute(case: dict):
                           protected=case.get("protected", False))
             if time_condition is not None:
                 kwargs["time_condition"] = time_condition
-            else:
+            if time_condition is None or "&" in case["cond"]:
                 kwargs["condition"] = condition
             deco = cache.cache(**kwargs)
             if sig == "ab":
                 @deco
                 async def f(a, b=0):
                     return await body(a, b)
-            else:
+            elif sig == "kw":
                 @deco
                 async def f(a, *, b=0):
                     return await body(a, b)
+            elif sig == "va":
+                @deco
+                async def f(a, *rest):
+                    return await body(a, tuple(rest))
+            else:
+                @deco
+                async def f(a, **opts):
+                    return await body(a, tuple(sorted(opts.items())))
         else:
             async def gen_body(a, b):
                 n = len(log)
                 steps, findur = parse_run(script[n]) if n < len(script) else ([], 0)
-                entry = {"n": n, "key": arg_index(a, b), "start": CLOCK.ticks(), "outs": [], "kinds": [],
+                entry = {"n": n, "key": bound_index(sig, a, b), "start": CLOCK.ticks(), "outs": [], "kinds": [],
                          "complete": False, "ended": None}
                 log.append(entry)
                 block = ctl["cancel_at"]             # the step during which this call's consumer will be cancelled
@@ -650,13 +743,23 @@ def execute(case: dict):
                 async def f(a, b=0):
                     async for x in gen_body(a, b):
                         yield x
-            else:
+            elif sig == "kw":
                 @deco
                 async def f(a, *, b=0):
                     async for x in gen_body(a, b):
                         yield x
+            elif sig == "va":
+                @deco
+                async def f(a, *rest):
+                    async for x in gen_body(a, tuple(rest)):
+                        yield x
+            else:
+                @deco
+                async def f(a, **opts):
+                    async for x in gen_body(a, tuple(sorted(opts.items()))):
+                        yield x
 
-        ctl = {"cancel_at": None, "reached": None}
+        ctl = {"cancel_at": None, "reached": None, "block": False, "gate": None, "cut": 0}
 
         def note(x):
             return ("yielded:" if isinstance(x, BaseException) else "") + canon(x)
@@ -737,11 +840,17 @@ def execute(case: dict):
             """run the consumer as a task; cancel it as soon as `event` is set (if it ever is)"""
             task = asyncio.ensure_future(coro)
             waiter = asyncio.ensure_future(event.wait())
-            await asyncio.wait({task, waiter}, return_when=asyncio.FIRST_COMPLETED)
+            # (the guard only matters if the code under test hangs: a wait that cannot end is a harness error, not a hang)
+            done, _ = await asyncio.wait({task, waiter}, return_when=asyncio.FIRST_COMPLETED, timeout=1 << 20)
+            if not done:
+                task.cancel()
+                waiter.cancel()
+                raise HarnessError("a call neither ended nor reached the point at which its caller is cancelled")
             if not task.done():
                 task.cancel()
+            result = None
             try:
-                await task
+                result = await task
             except asyncio.CancelledError:
                 pass
             waiter.cancel()
@@ -749,6 +858,7 @@ def execute(case: dict):
                 await waiter
             except asyncio.CancelledError:
                 pass
+            return result
 
         trace = []
         for op in case["ops"]:
@@ -757,20 +867,49 @@ def execute(case: dict):
                 CLOCK.advance(op[1])
                 trace.append({"line": f"adv {op[1]}", "impl": "ok", "now": now})
                 continue
-            a, b = ARGS[op[1]]
-            fs = forms(sig, a, b)
+            fs = call_forms(sig, op[1])
             args, kwargs = fs[op[2] % len(fs)]
             before = len(log)
             if kind == "simple":
-                try:
-                    value = await f(*args, **kwargs)
-                    got = canon(value)
-                    if isinstance(value, BaseException):       # an exception handed over as a *return value*
-                        got = "returned:" + got
-                except Exception as exc:  # noqa: BLE001 - the wrapped function's scripted exceptions
-                    got = canon(exc)
-                trace.append({"line": f"call {op[1]}", "impl": f"{got} {'run' if len(log) > before else 'hit'}",
-                              "now": now, "key": op[1], "execs": len(log) - before})
+                del TTL_SEEN[:]
+                lost = len(op) > 3 and op[3] == "lost"
+                how_lost = ("lost" if case.get("protected", False) else "cut") if lost else ""
+
+                async def caller():
+                    try:
+                        value = await f(*args, **kwargs)
+                        if isinstance(value, BaseException):       # an exception handed over as a *return value*
+                            return "returned:" + canon(value)
+                        return canon(value)
+                    except Exception as exc:  # noqa: BLE001 - the wrapped function's scripted exceptions
+                        return canon(exc)
+                cut_before = ctl["cut"]
+                if not lost:
+                    got = await caller()
+                else:
+                    ctl["block"], ctl["reached"], ctl["gate"] = True, asyncio.Event(), asyncio.Event()
+                    got = await run_and_cancel(caller(), ctl["reached"])
+                    ctl["block"] = False
+                    ctl["gate"].set()       # the function goes on (if it is still there: the call was shielded)
+                    for attempt in range(60):
+                        await asyncio.sleep(0)
+                        if len(log) == before or "t" in log[before]:
+                            break
+                    else:
+                        raise HarnessError("a call whose caller was cancelled neither ended nor was cancelled")
+                    for _ in range(3):
+                        await asyncio.sleep(0)
+                if got is None:     # the caller was cancelled
+                    impl = "lost " + ("cut" if ctl["cut"] > cut_before else "run" if len(log) > before else "nothing")
+                else:
+                    impl = f"{got} {'run' if len(log) > before else 'hit'}"
+                rec = {"line": f"call {op[1]}" + (f" {how_lost}" if lost else ""), "impl": impl,
+                       "now": now, "key": op[1], "execs": len(log) - before, "lost": how_lost}
+                if len(log) > before and "t" in log[before]:
+                    # what a result-dependent ttl callable was handed once the function had returned / raised
+                    rec["ttl_saw"] = ["x" if isinstance(r, BaseException) and canon(r) == log[before]["res"] else canon(r)
+                                      if not isinstance(r, BaseException) else "other:" + canon(r) for r in TTL_SEEN[-1:]]
+                trace.append(rec)
             else:
                 mode = op[3] if len(op) > 3 and op[3] else None
                 items = await consume(f, args, kwargs, mode)
@@ -794,8 +933,11 @@ def model_lines(case: dict, trace=None) -> list[str]:
         if op[0] == "adv":
             ops.append(f"adv {op[1]}")
         else:
-            ops.append(f"{'call' if case['kind'] == 'simple' else 'it'} {op[1]}" +
-                       (consumer_code(op[3]) if len(op) > 3 and case["kind"] != "simple" else ""))
+            if case["kind"] == "simple":
+                lost = len(op) > 3 and op[3] == "lost"
+                ops.append(f"call {op[1]}" + ((" lost" if case.get("protected", False) else " cut") if lost else ""))
+            else:
+                ops.append(f"it {op[1]}" + (consumer_code(op[3]) if len(op) > 3 else ""))
     return [head, script.rstrip()] + ops
 
 
@@ -830,6 +972,13 @@ def oracle(case: dict, trace, log):
                 tt = ttl_ticks_spec(ttl, k, x["kind"])
                 if tt == 0 or now - x["t"] < tt:
                     stored.append(x)
+            if how == "nothing":
+                return i, "the caller was cancelled while the function was running, but the function was not running"
+            if how == "cut":
+                if stored:
+                    return i, (f"the function was started although execution {stored[-1]['n']} (same key, accepted, "
+                               f"age {now - stored[-1]['t']} ticks < ttl) is a stored fresh result")
+                continue
             if how == "run":
                 x = log[seen]
                 seen += 1
@@ -838,8 +987,15 @@ def oracle(case: dict, trace, log):
                                f"age {now - stored[-1]['t']} ticks < ttl) is a stored fresh result")
                 if x["key"] != k:
                     return i, "executed with other arguments than the call's"
-                if got != x["res"]:
+                if "t" not in x:
+                    return i, "the call was shielded from its caller's cancellation but its execution did not complete"
+                if got != "lost" and got != x["res"]:
                     return i, f"caller got {got} but the execution produced {x['res']}"
+                for saw in t.get("ttl_saw", ()):
+                    if saw != ("x" if x["kind"].startswith("e") else x["res"]):
+                        return i, (f"the ttl callable was handed {saw} as `result` although the execution "
+                                   f"{'raised' if x['kind'].startswith('e') else 'returned'} {x['res']}: a ttl that depends on the result "
+                                   f"is worked out from something that is not the result")
             else:
                 if not any(x["res"] == got for x in stored):
                     why = "no execution with this key produced it"
@@ -852,9 +1008,10 @@ def oracle(case: dict, trace, log):
                                 why = f"execution {x['n']} produced it {now - x['t']} ticks ago, ttl is {tt} ticks"
                     if why.startswith("no execution"):
                         for x in prior:
-                            if x["key"] != k and x["key"] in EQ_CLASS_OF.get(k, ()) and x.get("res") == got:
-                                why = (f"execution {x['n']} produced it for the OTHER arguments {ARGS[x['key']]!r}, which compare equal to "
-                                       f"but are not the arguments {ARGS[k]!r} of this call")
+                            if x["key"] != k and x.get("res") == got and got[0] in "vx":
+                                how_close = "which compare equal to but" if x["key"] in eq_class_of(case["sig"], k) else "which"
+                                why = (f"execution {x['n']} produced it for the OTHER arguments {alphabet(case['sig'])[x['key']]!r}, {how_close} "
+                                       f"are not the arguments {alphabet(case['sig'])[k]!r} of this call")
                     failures = [x for x in stored if x["kind"].startswith("e")]
                     if why.startswith("no execution") and failures:
                         y = failures[-1]
@@ -913,9 +1070,10 @@ def oracle(case: dict, trace, log):
                                f"the replay ends with {items[-1]}: not the exception that was raised")
             if not ok and why.startswith("no run"):
                 for x in log[:seen]:
-                    if x["key"] != k and x["key"] in EQ_CLASS_OF.get(k, ()) and x["complete"] and shows(x) and items:
-                        why = (f"run {x['n']} produced it for the OTHER arguments {ARGS[x['key']]!r}, which compare equal to but are not "
-                               f"the arguments {ARGS[k]!r} of this call")
+                    if x["key"] != k and x["complete"] and shows(x) and items and any(it[0] in "vx" for it in items):
+                        how_close = "which compare equal to but" if x["key"] in eq_class_of(case["sig"], k) else "which"
+                        why = (f"run {x['n']} produced it for the OTHER arguments {alphabet(case['sig'])[x['key']]!r}, {how_close} are not "
+                               f"the arguments {alphabet(case['sig'])[k]!r} of this call")
             if not ok and why.startswith("no run"):
                 for x in log[:seen]:
                     if x["key"] == k and not x["complete"] and x["outs"][:len(items)] == items:
